@@ -505,6 +505,31 @@ impl StandardLinearModel {
     }
 }
 
+/// Native read accessors for verification harnesses (the getters above are
+/// wasm-only and the `Display` text is lossy).
+#[cfg(feature = "verif-hooks")]
+impl StandardLinearModel {
+    pub fn verif_variables(&self) -> &Vec<String> {
+        &self.variables
+    }
+    pub fn verif_objective(&self) -> &Vec<f64> {
+        &self.objective
+    }
+    pub fn verif_objective_offset(&self) -> f64 {
+        self.objective_offset
+    }
+    pub fn verif_flip_objective(&self) -> bool {
+        self.flip_objective
+    }
+    /// `(coefficients, rhs)` of every equality row.
+    pub fn verif_rows(&self) -> Vec<(Vec<f64>, f64)> {
+        self.constraints
+            .iter()
+            .map(|c| (c.coefficients.clone(), c.rhs))
+            .collect()
+    }
+}
+
 #[cfg_attr(target_arch = "wasm32", wasm_bindgen)]
 #[cfg(target_arch = "wasm32")]
 impl StandardLinearModel {
